@@ -142,7 +142,7 @@ pub fn run(rng: &mut Rng, out: &mut Out, thorough: bool) {
         emit(out, "random", &bits, len <= 300, 50, rng);
     }
     // long superblocks: span >= bit_len(len)^4 needs len >= 83521 (17^4)
-    let long_lens: Vec<usize> = if thorough { vec![83520, 83521, 83522, 100_000, 131_071, 131_072, 200_000, 400_000] } else { vec![83521, 131_072, 400_000] };
+    let long_lens: Vec<usize> = if thorough { vec![83520, 83521, 83522, 100_000, 131_071, 131_072, 200_000, 400_000] } else { vec![83521, 131_072] };
     for len in long_lens {
         let mut variants: Vec<Vec<bool>> = Vec::new();
         // few ones spread out: the single (partial) superblock is long
@@ -170,7 +170,7 @@ pub fn run(rng: &mut Rng, out: &mut Out, thorough: bool) {
             variants.push(v);
         }
         for bits in variants {
-            emit(out, "long", &bits, false, if thorough { 400 } else { 120 }, rng);
+            emit(out, "long", &bits, false, if thorough { 300 } else { 50 }, rng);
         }
     }
 }
